@@ -906,7 +906,8 @@ PROPS["C07"] = dict(
                "vectors normalised; Karatsuba = schoolbook = product wherever it returns; c07_karatsuba_panics: it does not always "
                "return - two kernel-checked witnesses replayed on the crate, in code unreachable from serde_json's API), "
                "c07_limbs_refine_nat (parse_mantissa / large_atof / small_atof / bhcomp on limb vectors = the Nat-level model that "
-               "c07_bhcomp_exact is about) and c07_limbs_total (no panic for -2048 < scaled_exponent < 1024). "
+               "c07_bhcomp_exact is about), c07_limbs_total (no panic for -2048 < scaled_exponent < 1024) and their composition "
+               "c07_bhcomp_limbs_exact (bhcomp.rs run on limb vectors returns the correctly rounded value). "
                "The transcription is run bit for bit against "
                "the crate, and the independent exact-rational oracle is evaluated on the crate's output, on 81k (quick) / 1.4M "
                "(thorough) constructed literals incl. exact midpoints up to 770 digits and all 2^32 f32 patterns print->parse.",
